@@ -24,14 +24,14 @@ type Drv struct {
 	// Shard i of N: drivers split their domains so that N processes can run in parallel;
 	// Mine(k) tells whether work item k belongs to this process.
 	Shard, NShards int
-	R    *rng
-	S    *Sink
+	R              *rng
+	S              *Sink
 	// Limit bounds the events of one goroutine in concurrent mode.
 	Limit  int
 	nparse int
 }
 
-func (d *Drv) Thorough() bool { return d.Tier == "thorough" }
+func (d *Drv) Thorough() bool  { return d.Tier == "thorough" }
 func (d *Drv) Mine(k int) bool { return k%d.NShards == d.Shard }
 
 // Span splits [lo, hi] into NShards contiguous ranges and returns this shard's.
